@@ -74,12 +74,23 @@ TBuild ==
   /\ UNCHANGED <<truth, nflush>>
   /\ Frame
 
+\* the list that the NEXT recorded swap replaced, projected again after that swap (dkv.DB's readers capture the current
+\* list and read it outside the lock): it must still hold what it held - the current lv of this replay - and satisfy
+\* the layout predicates.  The line precedes the swap's own line.
+TOld ==
+  /\ IsEvent("Old") /\ EvReadable(Ev)
+  /\ LET L == EvLayout(Ev)
+     IN /\ VisibleMap(L) = VisibleMap(lv)
+        /\ LayoutValidOf(L) /\ NewerAboveOlderOf(L)
+  /\ UNCHANGED <<lv, truth, nflush>>
+  /\ Frame
+
 TReset ==
   /\ IsEvent("Reset")
   /\ lv' = EmptyLayout /\ truth' = NoTruth /\ nflush' = 0
   /\ Frame
 
-TraceNext == TFlush \/ TSwap \/ TBuild \/ TReset
+TraceNext == TFlush \/ TSwap \/ TBuild \/ TOld \/ TReset
 TraceSpec == TraceInit /\ [][TraceNext]_tvars
 
 TraceAccepted ==
